@@ -139,6 +139,20 @@ def chem_clauses(ctx, st, pt, rng, elements, isotopes):
         ctx.violation('formula-round-trip-differs', {'composition': comp, 'sep': sep, 'hill_order': hill, 'text': text,
                                                      'parsed_back': back})
         return
+    # the parsed composition is the caller's: editing it must not change what the same text parses to next time
+    snap = dict(back[1])
+    try:
+        for k0 in list(back[1])[:1]:
+            back[1][k0] = back[1][k0] + 2
+        back[1]['Zz'] = 9
+    except Exception:
+        pass
+    again = observe(st, pt, 'parse_chem_formula', text, sep)
+    ctx.decided()
+    if not again or again[0] != 'ok' or again[1] != snap:
+        ctx.violation('parse-result-depends-on-edits-of-an-earlier-result', {'text': text, 'first': snap,
+                                                                            'second': again})
+        return
     # mass of the string equals the mass of the composition (both modes)
     for mono in (True, False):
         a = observe(st, pt, 'chem_mass', text, mono, None, sep)
@@ -191,6 +205,15 @@ def glycan_clauses(ctx, st, pt, rng):
         ref_comp = chem.add(ref_comp, e.comp, c)
         mono += e.mono * c
         avg += e.avg * c
+        if e.synonyms and rng.random() < 0.2:
+            # the same monosaccharide a second time under another registered spelling: the counts add
+            other = rng.choice([s_ for s_ in [e.name] + list(e.synonyms) if s_ != name])
+            c2 = rng.randint(1, 6)
+            counts[other] = c2
+            use_syn = True
+            ref_comp = chem.add(ref_comp, e.comp, c2)
+            mono += e.mono * c2
+            avg += e.avg * c2
     sep = rng.choice(['', '', ' '])
     ctx.begin({'glycan': counts, 'sep': sep})
     w = observe(st, pt, 'write_glycan_formula', dict(counts), sep)
